@@ -2,7 +2,7 @@
    (Generated/LogicGen.v, re-generated on every run by harness/gen_logic.py): which component method is called, directly
    or through call_soon, under which condition on the entry.  A change of that control flow in /repo - an entry type
    dispatched elsewhere, a test moved before or behind another (finding F17 was one) - breaks these proofs. *)
-From PS Require Import Lib.Base Generated.Consts Model.SdTypes Model.Config Model.Session Model.Skel Generated.LogicGen
+From PS Require Import Lib.Base Generated.Consts Model.SdTypes Model.Config Model.Session Model.Skel Generated.LogicGen Proofs.AListFacts Proofs.QueueProofs Proofs.C07Proofs
   Model.StackTypes Model.Stack.
 
 (* the calls of the per-entry dispatch, over the model; None = a call the model does not know at this place *)
@@ -236,3 +236,95 @@ Theorem store_stop_all_each_is_the_translated_source st a k o acc :
   store_callback st k a (cancel_opt o acc)
   = sk_w (run_tacts st 0 a k (gen_ts_stop_all_each (match o with Some _ => true | None => false end)) acc o).
 Proof. unfold gen_ts_stop_all_each, run_tacts. destruct o; reflexivity. Qed.
+
+(* ------------------------------------------------------------------ ServiceAnnouncer.queue_send *)
+Definition open_coll_of (remote : dest) (w : world) : option (N * collector) :=
+  match aget dest_eqb remote (queues w) with
+  | Some c => match aget N.eqb c (collectors w) with
+              | Some co => if co_done co then None else Some (c, co)
+              | None => None
+              end
+  | None => None
+  end.
+Definition run_qact (e : sdentry) (remote : dest) (w : world) (q : qact) : world :=
+  match q with
+  | QSendNow => send_sd [e] remote (ghost (GFlush remote [e]) w)
+  | QNewCollector =>
+      let r := call_later (t_collect (cfg w)) (HCollector (next_id w)) w in
+      set_queues (aset dest_eqb remote (fst r) (queues (snd r)))
+        (set_collectors (collectors (snd r) ++ [(fst r, mkColl remote [] false)]) (snd r))
+  | QAppend =>
+      match open_coll_of remote w with
+      | Some (c, co) => set_collectors (aset N.eqb c (mkColl (co_dest co) (co_data co ++ [e]) false) (collectors w)) w
+      | None => w
+      end
+  end.
+
+Lemma aset_app_fresh {V} k (v0 v : V) : forall l, aget N.eqb k l = None -> aset N.eqb k v (l ++ [(k, v0)]) = l ++ [(k, v)].
+Proof.
+  induction l as [|[k' v'] l IH]; cbn [app aset aget]; intros H.
+  - rewrite N.eqb_refl. reflexivity.
+  - destruct (N.eqb k k'); [discriminate|]. rewrite IH by exact H. reflexivity.
+Qed.
+
+(* the ghost event GQueue of the model is written first; the rest is the translated source.  The collector ids are timer ids:
+   below next_id in every reachable state (ownership invariant g_collfresh) *)
+Theorem queue_send_is_the_translated_source e remote w :
+  (forall c co, In (c, co) (collectors w) -> c < next_id w) ->
+  let wg := ghost (GQueue e remote) w in
+  queue_send e remote w
+  = fold_left (run_qact e remote)
+      (gen_queue_send (t_collect (cfg w) =? 0) (match open_coll_of remote wg with Some _ => true | None => false end)) wg.
+Proof.
+  intros Hfresh. cbv zeta. unfold queue_send, queue_core, gen_queue_send.
+  set (wg := ghost (GQueue e remote) w). change (cfg wg) with (cfg w).
+  destruct (t_collect (cfg w) =? 0); [reflexivity|].
+  change (match aget dest_eqb remote (queues wg) with
+          | Some c => match aget N.eqb c (collectors wg) with
+                      | Some co => if co_done co then None else Some (c, co)
+                      | None => None end
+          | None => None end) with (open_coll_of remote wg).
+  destruct (open_coll_of remote wg) as [[c co]|] eqn:Eo; cbn [negb app fold_left run_qact].
+  - rewrite Eo. reflexivity.
+  - set (tid := next_id wg).
+    assert (Hf : aget N.eqb tid (collectors wg) = None).
+    { apply aget_fresh. intros c co Hin. apply (Hfresh c co Hin). }
+    cbn [call_later fst snd]. fold tid.
+    set (w1 := set_next_id (tid + 1) (set_timers _ wg)).
+    change (collectors w1) with (collectors wg). change (queues w1) with (queues wg).
+    unfold open_coll_of. cbn [queues set_queues collectors set_collectors].
+    rewrite (aget_aset_same dest_eqb C07Proofs.dest_eqb_eq).
+    rewrite (aget_app_notin tid (collectors wg) (tid, mkColl remote [] false) Hf). cbn [fst snd co_done co_dest co_data app].
+    rewrite N.eqb_refl. cbn [co_done co_dest co_data app fst snd]. rewrite (aset_app_fresh tid _ _ _ Hf). reflexivity.
+Qed.
+
+(* ------------------------------------------------------------------ answering a FindService *)
+Definition run_fact (e : sdentry) (a : addr) (matching : list N) (s : world * N) (f : fact) : world * N :=
+  let '(w, d) := s in
+  match f with
+  | FDraw => let r := draw (t_rr_min (cfg w)) (t_rr_max (cfg w)) w in (snd r, fst r)
+  | FLaterEach => (fold_left (fun acc i => snd (call_later d (HAnswerFind i a) acc)) matching w, d)
+  | FSoonEach => (fold_left (fun acc i => call_soon (HAnswerFind i a) acc) matching w, d)
+  | FSendOffer => (w, d)
+  end.
+Theorem handle_findservice_is_the_translated_source e a mc w :
+  let matching := filter (fun i => inst_matches_find e i w) (announcing w) in
+  announcer_handle_findservice e a mc w
+  = fst (fold_left (run_fact e a matching) (gen_handle_find (match matching with [] => false | _ => true end) mc) (w, 0)).
+Proof.
+  cbv zeta. unfold announcer_handle_findservice, gen_handle_find.
+  destruct (filter (fun i => inst_matches_find e i w) (announcing w)) as [|i l]; [reflexivity|].
+  destruct mc; cbn [negb fold_left run_fact fst snd]; [|reflexivity].
+  destruct (draw (t_rr_min (cfg w)) (t_rr_max (cfg w)) w) as [d w1]. reflexivity.
+Qed.
+Theorem inst_matches_find_is_the_translated_source e i w ins :
+  get_inst i w = Some ins ->
+  inst_matches_find e i w
+  = gen_inst_matches_find (in_can_answer ins) (match matches_find (in_service ins) e with Ok true => true | _ => false end).
+Proof. intros H. unfold inst_matches_find, gen_inst_matches_find. rewrite H. destruct (in_can_answer ins); reflexivity. Qed.
+(* readiness is judged when the answer FIRES *)
+Theorem answer_find_is_the_translated_source i a w ins :
+  get_inst i w = Some ins ->
+  answer_find i a w = fold_left (fun acc f => match f with FSendOffer => inst_send_offer i (Some a) false acc | _ => acc end)
+                                (gen_answer_find (in_can_answer ins)) w.
+Proof. intros H. unfold answer_find, gen_answer_find. rewrite H. destruct (in_can_answer ins); reflexivity. Qed.
